@@ -21,7 +21,7 @@ MANIFEST = dict(
          "with the write_lines model of C13: precedence force > user > default and default retention; carriage of every Clean "
          "body line (exact decidable predicate, a counterexample proved for each excluded class) as indentation + line; the reader "
          "consumes a well-formed block into exactly one dictionary insertion of the right-stripped body, ignores text outside "
-         "markers, and reads back what the emitter wrote (round trip, stable under repeated regeneration). The model is tied to "
+         "markers, and reads back a whole emitted file with pairwise prefix-incomparable names as exactly the emitted bodies in order (round trip, stable under repeated regeneration); splicer_code overrides files per block and file blocks survive. The model is tied to "
          "the code on every run by differential correspondence through the compiled Lean driver; an implementation-only oracle "
          "regenerates corpus libraries with user bodies supplied from splicer files, splicer_code and declarations.",
     design="3 C12",
@@ -29,7 +29,7 @@ MANIFEST = dict(
          "validated on generated files/stacks only; Python whitespace on ASCII+U+0085/U+00A0; files decoded as UTF-8 with "
          "universal newlines. Carriage is proved for Clean lines only: a trailing '+', interior TAB/FF, column-one @ ^ + -, "
          "a leading CR and embedded newlines are interpreted by write_lines (open known findings for '+', TAB, FF). "
-         "splicer_code replacing all file-supplied splicers of a language is modelled as coded.",
+         "splicer_code is merged block by block (main.add_splicer_code, tied directly).",
     technique="Lean 4 proof (induction over lines / blocks) + differential correspondence + end-to-end regeneration oracle",
 )
 MODULES = ["ShroudVerif.Props.C12"]
@@ -41,6 +41,8 @@ THEOREMS = {
         "Shroud.Splicer.create_markers",
         "Shroud.Splicer.stack_preserves",
         "Shroud.Splicer.collect_precedence",
+        "Shroud.Splicer.file_blocks_survive",
+        "Shroud.Splicer.code_beats_files",
         "Shroud.Splicer.carriage_line",
         "Shroud.Splicer.carriage",
         "Shroud.Splicer.emitLine_core",
@@ -65,6 +67,9 @@ THEOREMS = {
         "Shroud.Splicer.reader_no_name",
         "Shroud.Splicer.reader_repeat",
         "Shroud.Splicer.insertBlock_fresh",
+        "Shroud.Splicer.insertBlock_ok",
+        "Shroud.Splicer.roundtrip_file_gen",
+        "Shroud.Splicer.roundtrip_file",
     ]
 }
 
@@ -80,8 +85,10 @@ def flatten(nested, prefix=()):
         if isinstance(v, dict):
             out.append(("D", p, None))
             out.extend(flatten(v, p))
-        else:
+        elif isinstance(v, (list, tuple)):
             out.append(("L", p, list(v)))
+        else:
+            out.append(("L", p, ["<%s>" % type(v).__name__]))
     return out
 
 
@@ -135,11 +142,22 @@ def real_gs(tmp, nested0, contents):
     return "ok " + canon_dict(enc_dict(flatten(out)))
 
 
+def _with_line_keys(node, n=[0]):
+    """what the YAML loader of main_with_args does to every mapping"""
+    if isinstance(node, dict):
+        out = {k: _with_line_keys(v) for k, v in node.items()}
+        n[0] += 1
+        out["__line__"] = n[0]
+        return out
+    return node
+
+
 def real_col(tmp, code, ncmd, contents):
-    """main_with_args' collection for one language, replicated call by call on the real functions:
-    command-line files through get_splicer_based_on_suffix, YAML files through get_splicers,
-    then dict.update with splicer_code (main.py lines 405-503)."""
+    """main_with_args' collection for one language: command-line files through get_splicer_based_on_suffix,
+    YAML files through get_splicers (main.py calls them exactly so), then the real main.add_splicer_code
+    on a splicer_code mapping that carries the loader's __line__ keys."""
     from shroud import splicer
+    from shroud import main as smain
     splicers = dict(c={}, f={}, py={}, lua={})
     try:
         for k, c in enumerate(contents):
@@ -151,7 +169,12 @@ def real_col(tmp, code, ncmd, contents):
             else:
                 splicer.get_splicers(fname, splicers.setdefault("f", {}))
         if code is not None:
-            splicers.update({"f": copy.deepcopy(code)})
+            src = _with_line_keys({"f": copy.deepcopy(code)})
+            merge = getattr(smain, "add_splicer_code", None)
+            if merge is None:           # a tree without the helper: what main.py did before
+                splicers.update(src)
+            else:
+                merge(splicers, src)
     except Exception as e:  # noqa
         return "crash " + exc_name(e)
     return "ok " + canon_dict(enc_dict(flatten(splicers["f"])))
@@ -370,8 +393,8 @@ def tie(ctx, ok, tmp):
     for d0, contents in gs_cases:
         add("gs %s %s" % (enc_dict(flatten(d0)), " ".join(common.enc(c) for c in contents)),
             real_gs(tmp, d0, contents), canon_gs, "gs")
-    for k in range(400 if thorough else 120):
-        contents = [gen_valid(r) if r.random() < 0.8 else gen_malformed(r) for _ in range(r.randrange(0, 4))]
+    for k in range(1500 if thorough else 400):
+        contents = [gen_valid(r) if r.random() < 0.9 else gen_malformed(r) for _ in range(r.randrange(0, 4))]
         ncmd = r.randrange(0, len(contents) + 1)
         code = gen_nested(r) if r.random() < 0.5 else None
         add("col %s %d %s" % ("N" if code is None else enc_dict(flatten(code)), ncmd, " ".join(common.enc(c) for c in contents)),
@@ -710,8 +733,10 @@ def oracle_e2e(ctx, libname, tmp):
                 ctx.count(len(both.get(lang, {})))
                 if lost:
                     ctx.fail("precedence:splicer_code-discards-file-splicers:%s" % lang,
-                             "splicer_code with an entry for '%s' discards every block supplied by splicer files for that language "
+                             "splicer_code with an entry for '%s' discards blocks supplied by splicer files for that language "
                              "(e.g. %s in %s)" % (lang, lost[0], libname), dict(rp, lang=lang, lost=lost[:5]))
+                else:
+                    expected[lang] = dict(both.get(lang, {}), **supc[lang])
             else:
                 expected[lang] = both[lang]
         check_supplied(ctx, lib, "files+splicer_code", files5, base_h, expected, dict(rp, supplied=expected))
@@ -928,8 +953,8 @@ def run(ctx):
     ctx.assumptions += [
         "theorems are about the Lean model; the model is validated against the code by differential testing on generated inputs only",
         "carriage is proved for Clean lines; the excluded classes are interpreted by write_lines (witness theorems)",
-        "round trip is proved per block (reader performs one insertion of the emitted body); that the insertion succeeds for "
-        "pairwise prefix-incomparable names is exercised by the tie and the oracle, not proved",
+        "whole-file round trip (roundtrip_file) is for pairwise prefix-incomparable dotted names, Clean right-stripped "
+        "end-marker-free bodies, a marker prefix without the letter 's' and an indentation unit of blanks",
         "a splicer named __line__ (key injected by the YAML loader into splicer_code mappings) is outside the model",
     ]
     tmp = common.scratch()
